@@ -30,15 +30,25 @@ def local_table(func, param, program=None):
     out = []
     for n in walk_own(func.node):
         if isinstance(n, ast.Compare) and len(n.ops) == 1 and isinstance(n.left, ast.Name) and n.left.id == param:
-            if isinstance(n.ops[0], ast.In):
+            if isinstance(n.ops[0], (ast.In, ast.NotIn)):
                 vals = const_strings(program, func, n.comparators[0]) if program is not None else None
                 if vals is None and isinstance(n.comparators[0], (ast.Tuple, ast.List, ast.Set)):
                     vals = {e.value for e in n.comparators[0].elts if isinstance(e, ast.Constant)}
                 if vals is not None:
-                    out.append((n, vals))
-            elif isinstance(n.ops[0], ast.Eq) and isinstance(n.comparators[0], ast.Constant):
-                out.append((n, {n.comparators[0].value}))
+                    out.append(Tab(n, vals, isinstance(n.ops[0], ast.In)))
+            elif isinstance(n.ops[0], (ast.Eq, ast.NotEq)) and isinstance(n.comparators[0], ast.Constant):
+                out.append(Tab(n, {n.comparators[0].value}, isinstance(n.ops[0], ast.Eq)))
     return out
+
+
+class Tab(tuple):
+    """(compare node, names) of a membership test; .pos: the outcome of the test that means "name is in the set"
+    (True for `in`/`==`, False for `not in`/`!=`)"""
+
+    def __new__(cls, node, vals, pos):
+        t = tuple.__new__(cls, (node, vals))
+        t.pos = pos
+        return t
 
 
 def run(ctx):
@@ -74,6 +84,7 @@ def run(ctx):
            and "super" in norm(c.func.value)]
     fwd = [c for c in walk_own(sa.node) if isinstance(c, ast.Call) and norm(c.func) == "setattr"]
     tabnode = tabs[0][0] if tabs else None
+    tabpos = tabs[0].pos if tabs else True
 
     def branch_of(call):
         out = set()
@@ -81,9 +92,9 @@ def run(ctx):
             if cn.kind == "stmt" and any(x is call for x in ast.walk(cn.ast)):
                 for c, o, _ in cfg.guards_of(cn):
                     if c is tabnode:
-                        out.add(o)
+                        out.add(o is tabpos)
         return out
-    if len(sup) == 1 and [norm(a) for a in sup[0].args] == [namep, valp] and branch_of(sup[0]) == {True}:
+    if len(sup) == 1 and [norm(a) for a in sup[0].args] == [namep, valp] and branch_of(sup[0]) == {True}:  # True: "name is local"
         ctx.inst("L2", sa, sup[0], "local names: stored on the link itself, same name and value")
     else:
         ctx.viol("L2", sa, sa.node, "for local names __setattr__ does not do super().__setattr__(name, value)", construct="__setattr__ local branch")
@@ -105,7 +116,8 @@ def run(ctx):
         v = r.ast.value
         if isinstance(v, ast.Call) and norm(v.func) == "getattr" and [norm(a) for a in v.args] == ["%s.target" % ga.selfname, gname] and not v.keywords:
             gs = gcfg.guards_of(r)
-            if all(o is False for c, o, _ in gs):
+            posof = {id(t[0]): t.pos for t in gtabs}
+            if all(o is (not posof.get(id(c), True)) for c, o, _ in gs):
                 ok = True
     extra = []
     tabnodes = [t for t, _ in gtabs]
